@@ -84,6 +84,9 @@ def run_groups(ctx, pid, groups, tag, jobs=16, sig_prefix=None, lines_per_file=N
             ctx.tally(f"{tag}_status_{status}" + ("" if status != "ok" else ("_exact" if v[7] else "_inexact")))
             if collect is not None:
                 collect.append((ln, pi, status, v[7]))
+            if v[0] == "REJECT" and "UnicodeDecodeError" in ln["obs"][pi].get("note", "") and _codec_rejects(ln["defn"], v[6]):
+                ctx.tally("legitimate_decode_errors")     # the bytes the specification selects are invalid in the codec
+                continue
             if v[0] == "REJECT":
                 o = ln["obs"][pi]
                 ctx.violation(f"{sig_prefix}/{clause}/{ln['route'][0]}",
@@ -94,6 +97,23 @@ def run_groups(ctx, pid, groups, tag, jobs=16, sig_prefix=None, lines_per_file=N
         if seen != want:
             raise core.MachineryError(f"Trace_Decode verdicts {seen} != cases {want} on {tag}@{off}")
     return stats
+
+
+def _codec_rejects(d, mapping_json):
+    """Does some string item of the model's mapping hold bytes that the declared codec cannot decode?"""
+    try:
+        m = json.loads(mapping_json)
+    except Exception:  # noqa: BLE001
+        return False
+    for it in m:
+        if it["val"].get("t") == "strb" and it["name"] in d["params"]:
+            codec = d["types"][d["params"][it["name"]]["type"]]["sb"]["codec"]
+            pyc = {"US-ASCII": "ascii", "ISO-8859-1": "latin-1", "Windows-1252": "cp1252"}.get(codec, codec)
+            try:
+                bytes(it["val"]["bytes"]).decode(pyc)
+            except UnicodeDecodeError:
+                return True
+    return False
 
 
 def replay_case(ctx, obj, pid):
